@@ -195,7 +195,7 @@ func (k c02Pkt) setPayload(data []byte) (c02Pkt, int) {
 		stored = k.capacity()
 	}
 	out := k
-	out.pay = data[:stored]
+	out.pay = append([]byte{}, data[:stored]...) // never nil: in this model a nil payload means "no payload flag"
 	if stored == 184 {
 		return out, stored
 	}
@@ -325,6 +325,9 @@ func c02Check(c c02Case) engine.Result {
 			for pat := 0; pat < 2; pat++ {
 				data := bufs[pat][:n]
 				keep := keeps[pat][:n]
+				if n == 0 && pat == 1 {
+					data, keep = nil, nil // the empty payload as a nil slice
+				}
 				p := p0
 				res.Evals++
 				got, err := p.SetPayload(data)
